@@ -24,9 +24,9 @@ func init() {
 			"the age adjustment is the library's documented rule: x0.01 once (age - age_of_last_improvement + 1) >= dropoff_age, x age_significance up to age 10, divided by the species size"},
 		Cases: func(tier string) int {
 			if tier == "quick" {
-				return 96
+				return 384
 			}
-			return 1200
+			return 2400
 		},
 		Run: func(c *Ctx, idx int) { runQuota(c, idx, false) },
 		Required: []string{"epochs", "epochs.plain_quota_checked", "epochs.delta_coding", "epochs.stolen", "epochs.makeup", "species.zero_quota",
@@ -42,9 +42,9 @@ func init() {
 		Assumptions: []string{"fitness values distinct and positive, so that the fittest member is unique"},
 		Cases: func(tier string) int {
 			if tier == "quick" {
-				return 96
+				return 384
 			}
-			return 1200
+			return 2400
 		},
 		Run:      func(c *Ctx, idx int) { runQuota(c, idx, true) },
 		Required: []string{"champions", "champions.with_disabled", "champions.super_champ_branch", "champions.parallel", "champions.quota_6_to_8", "champions.delta_coding"},
